@@ -13,6 +13,16 @@ CLAIMED = {
         "technique": "machine-checked proof in Rocq (Coq 8.16) over an executable Gallina model + differential correspondence check and table regeneration",
         "design": "DESIGN.md §7 C01",
     },
+    "C03": {
+        "text": "Rocq theorem C03_parse_render over the one-character-per-step model of the whole parser: for every file model and EVERY rendering of it in the independent layout "
+                "relation Renders (comment/blank lines anywhere, indentation, blanks around '=', trailing blanks, blanks after headers, any blank of a value written as a backslash-newline "
+                "continuation with optional spaces and following comment lines, repeated headers) parse_unit returns exactly the merged sections; C03_final_newline_optional; "
+                "C03_spelling_independent; unbounded in every dimension. One known class (a '[' directly after a continuation, pinned by the repo's own test) is excluded by the relation "
+                "and carried as C03_bracket_refuted. Full for the parser; the 'identical services' consequence follows because conversion only sees the parse result (checked end to end by the oracle).",
+        "note": "Trusted: Coq kernel; Spec/Layout.v as the meaning of 'rendering'; the approximation of char::is_alphanumeric beyond ASCII in Model/Lex.v (theorem keys are ASCII); extraction; driver; generators.",
+        "technique": "machine-checked proof in Rocq (Coq 8.16): induction over the layout derivation, running a structurally recursive parser machine + differential correspondence check",
+        "design": "DESIGN.md §7 C03",
+    },
     "C04": {
         "text": "Rocq theorems C04_spellings_read_back (every raw text related to a string s by the independent spelling relation Spells -- quoted runs of either kind at "
                 "the start or after whitespace, bare runs, literal whitespace, with every escape family -- is unquoted to exactly s), C04_every_string_spellable and "
@@ -32,6 +42,16 @@ CLAIMED = {
         "note": "Trusted: Coq kernel; Spec/SdExtract.v (validated against libsystemd-shared via ctypes); extraction; driver; generators.",
         "technique": "machine-checked proof in Rocq (Coq 8.16): simulation of two state machines + differential correspondence check",
         "design": "DESIGN.md §7 C05",
+    },
+    "C06": {
+        "text": "Rocq theorems C06_roundtrip (every well-formed unit -- distinct section names without ']'/newline, non-empty key-character keys, validated newline-free raw values "
+                "without blanks at the edges -- is read back from to_string exactly), C06_lines (one physical line per entry, two per section), C06_quote_value_safe (add/set/prepend never "
+                "store a raw control character), C06_write_calls (write_to = to_string). The generator clause (every stored value is of that form) is tied by a store-site inventory of convert.rs "
+                "and decided by a direct oracle (convert, serialise, read back with the implementation's parser) over units of all 7 types with injection payloads: partial in that respect. "
+                "Known finding BlankAtValueEdge.",
+        "note": "Trusted: Coq kernel; Spec/Layout.v; extraction; driver; generators; the documented key tables in tools/docs.py used to build convertible units.",
+        "technique": "machine-checked proof in Rocq (Coq 8.16): serialiser/parser round trip as a corollary of the layout theorem + store-site inventory + differential correspondence check",
+        "design": "DESIGN.md §7 C06",
     },
     "C15": {
         "text": "Rocq theorems over the unit model: C15_list (list look-up = history after its last empty assignment, with C15_effective_is_suffix characterising that suffix "
